@@ -241,9 +241,22 @@ def random_cases(acc, n, seed):
     body()
 
 
+# blocks without a statement in them, and other shapes the generators do not build; a
+# text counts as well-formed when the default loader takes it without repair
+EXTRA_TEXTS = [
+    "Group = Archive\nEnd_Group\nEND\n", "OBJECT = o\nEND_OBJECT = o\na = 1\nEND\n",
+    "BEGIN_OBJECT = o\n GROUP = g\n END_GROUP\n x = 1\nEND_OBJECT\n",
+    "GROUP = g\nEND_GROUP\nGROUP = g\nEND_GROUP\n", "a = ()\nb = {}\nc = (())\nEND\n",
+    "Object = o\n Object = p\n  Group = q\n  End_Group\n End_Object\nEnd_Object\nEnd\n",
+    "", "END", "/* only a comment */", "a = 1;;\n", "x = \"\"\ny = ''\n",
+]
+
+
 def corpus_cases(acc):
     for t in corpus():
         record(acc, t, "corpus")
+    for t in EXTRA_TEXTS:
+        record(acc, t, "mutant")        # judged like a mutant: kept if the loader takes it
 
 
 def fuzz_one(data):
